@@ -119,10 +119,23 @@ func NewEncryptedISO(f afero.File, data1 []byte, clearRegions bool) (*EncryptedI
 		}
 
 		// encrypted region placed between previous unencrypted region and current unencrypted region
+		// (sector numbers are signed 32-bit here, borders of map are unsigned: cut at the last addressable sector)
 		encryptedRegions = append(encryptedRegions, region{
-			start: sizeSectors(unencryptedRegions[i-1].End),
-			end:   sizeSectors(unencryptedRegion.Start),
+			start: sizeSectors(min(unencryptedRegions[i-1].End, math.MaxInt32)),
+			end:   sizeSectors(min(unencryptedRegion.Start, math.MaxInt32)),
 		})
+	}
+
+	// cut borders are as good as original ones unless image itself continues behind them
+	if prevRegionEnd > math.MaxInt32 {
+		stat, err := f.Stat()
+		if err != nil {
+			return nil, fmt.Errorf("stat failed: %w", err)
+		}
+
+		if sizeBytes(stat.Size()) > sizeSectors(math.MaxInt32).bytes() {
+			return nil, fmt.Errorf("image is too large (%d bytes)", stat.Size())
+		}
 	}
 
 	var isoKey [encryptionKeySize]byte
